@@ -259,6 +259,15 @@ var entries = []entry{
 	{"parse.Replace*", "parse", "html", func(in, prog []byte) string {
 		d := &digest{}
 		em, rm := entities()
+		// the maps are the caller's: one of three (few short names, the usual ones, long names), and every input ends in
+		// references of all lengths
+		switch {
+		case len(prog) > 0 && prog[0]%3 == 0:
+			em = map[string][]byte{"amp": []byte("&"), "lt": []byte("<"), "gt": []byte(">")}
+		case len(prog) > 0 && prog[0]%3 == 2:
+			em = map[string][]byte{"amp": []byte("&"), "hellip": []byte("…"), "varepsilon": []byte("ϵ"), "DoubleLeftArrow": []byte("⇐"), "CounterClockwiseContourIntegral": []byte("∳")}
+		}
+		in = append(in, " &amp;&lt; &hellip; &varepsilon; &DoubleLeftArrow;&CounterClockwiseContourIntegral; &nbsp;"...)
 		d.add("%q", parse.ReplaceMultipleWhitespace(cp(in)))
 		d.add("%q", parse.ReplaceEntities(cp(in), em, rm))
 		d.add("%q", parse.ReplaceMultipleWhitespaceAndEntities(cp(in), em, rm))
